@@ -78,6 +78,9 @@ def run_impl(specs, faults, requests):
             elif r["op"] == "slice":
                 res = series[s][i, 0:n]
                 outs.append("[" + ",".join("zero" if (res.mask[k] if np.ndim(res.mask) else False) else show(res.data[k]) for k in range(len(res))) + "]")
+            elif r["op"] == "box":
+                res = series[s][:, 0:n]; flat = [(a, k) for a in range(2) for k in range(n)]
+                outs.append("[" + ",".join("zero" if (res.mask[a, k] if np.ndim(res.mask) else False) else show(res.data[a, k]) for a, k in flat) + "]")
             elif r["op"] == "pop": series[s].pop((i, n), None); outs.append("ok")
             elif r["op"] == "contains": outs.append("true" if (i, n) in series[s] else "false")
         except BaseException as e:
@@ -100,7 +103,7 @@ def gen_case(rnd):
     for _ in range(rnd.choice([0, 0, 1, 2])): faults[rnd.randint(0, 12)] = rnd.choice(["runtime", "user", "base"])
     reqs = []
     for _ in range(rnd.randint(3, 12)):
-        op = rnd.choice(["get"] * 5 + ["slice", "slice", "pop", "contains"])
+        op = rnd.choice(["get"] * 5 + ["slice", "slice", "box", "box", "pop", "contains"])
         reqs.append({"op": op, "s": rnd.randrange(ns), "i": rnd.randrange(2), "n": rnd.randint(0, 4)})
     return specs, faults, reqs
 
